@@ -290,3 +290,35 @@ func mustConst(p *core.Prog, r *core.Report, rel, name string) int64 {
 	}
 	return v
 }
+
+// splitCall parses a canonical call expression "name(a,b,c)@id" into its name
+// and top-level arguments.
+func splitCall(s string) (name string, args []string, ok bool) {
+	i := strings.Index(s, "(")
+	if i <= 0 {
+		return "", nil, false
+	}
+	name = s[:i]
+	depth := 0
+	start := i + 1
+	for j := i; j < len(s); j++ {
+		switch s[j] {
+		case '(', '[':
+			depth++
+		case ')', ']':
+			depth--
+			if depth == 0 {
+				if j > start {
+					args = append(args, s[start:j])
+				}
+				return name, args, true
+			}
+		case ',':
+			if depth == 1 {
+				args = append(args, s[start:j])
+				start = j + 1
+			}
+		}
+	}
+	return "", nil, false
+}
